@@ -21,9 +21,20 @@ implementation is the NAME of the C function that sits in a table slot (glue: th
    hasReturnValue / returnValue        same name; returnValue() is converted to the C tagged union
    set<T>Data(name, v)                 MockSupport::setData(const SimpleString& name, <T> v)
    everything else of MockSupport_c    MockSupport method of the same name
+   slot k of a table                   the forwarder carrying the contract for the k-th field NAME of the header (proof tables.slots)
    <T>: Bool=bool (C int, nonzero is true)  Int=int  UnsignedInt=unsigned int  LongInt=long int  UnsignedLongInt=unsigned long int
         LongLongInt=cpputest_longlong  UnsignedLongLongInt=cpputest_ulonglong  Double=double  String=const char*  Pointer=void*
         ConstPointer=const void*  FunctionPointer=void (*)()
+
+Sections of the generated C19.spec: ghost state; recording contracts (@stub) of every C++ method that may be reached; (1)+(2) one
+enforced contract and one proof per entry point (the two entry points returning a function pointer as harness proofs: CBMC does not
+attach contract clauses to that declarator form); (3) the conversion to the C tagged union on its own (also verified inside returnValue_c
+and getData_c), type names compared by the REAL SimpleString::StrCmp on a symbolic 24-byte name; (4) mock_c / mock_scope_c, install*,
+removeAll* (bounded), the comparator / copier adaptor nodes, the C-only failure reporter and its terminator; the table slots.
+C19_receiver.spec: the three by-name expectations the shared forwarders do not meet (expected to fail; not part of ./check C19).
+Emitter rules this spec needs (tools/cxx2c.py): R1b (void* vs void (*)() overloads named apart), R1c (prototype of a function returning
+a function pointer), R11b (by-value return of a typedef'd C struct -> out-parameter), R14b (@define VERIF_TABLE_INITS: initialisers of
+function tables).
 """
 import sys, os, re
 HERE = os.path.dirname(os.path.abspath(__file__))
@@ -319,6 +330,13 @@ STATICS = ['expectedCall', 'actualCall', 'currentMockSupport']
 
 def tag(cn): return 'M_' + cn
 
+def ens_lines(e):
+    """one ensures clause; a trailing /* comment */ goes on its own line above it"""
+    if '      /*' in e:
+        x, cmt = e.split('      /*', 1)
+        return ['  /*' + cmt, '  __CPROVER_ensures(%s)' % x.rstrip()]
+    return ['  __CPROVER_ensures(%s)' % e]
+
 def gen():
     sess, u = load_unit()
     hdr = parse_header(os.path.join(os.environ.get('VERIF_REPO', '/repo'), 'include/CppUTestExt/MockSupport_c.h'))
@@ -349,6 +367,8 @@ def gen():
     A = out.append
     A(HEAD)
     A('@tu ' + TU + '\n')
+    # the three by-name expectations the shared forwarders do not meet: part of the check, matched against known_findings.json
+    A('@import-proofs C19_receiver.spec receiver.MockActualCall_c.hasReturnValue receiver.MockActualCall_c.returnIntValueOrDefault receiver.MockSupport_c.intReturnValue\n')
     # ---- ghost state
     ghosts = ['g_calls', 'g_method', 'g_has_calls', 'g_has_on', 'g_ss_calls', 'g_ss1', 'g_ss2', 'g_ss1_text', 'g_ss2_text', 'g_nv_cur', 'g_type_ss',
               'g_get_calls', 'g_getter']
@@ -524,7 +544,7 @@ def gen():
             p = ['@proof fwd.' + f.impl[:-2], '@object-bits 10', '@body ' + ' '.join([f.impl] + body), '@harness'] + h + ['@end']
             proofs.append('\n'.join(p)); continue
         c.append('  __CPROVER_assigns(%s)' % ', '.join(assigns))
-        for e in ens: c.append('  __CPROVER_ensures(%s)' % e)
+        for e in ens: c += ens_lines(e)
         c.append('@end')
         A('\n'.join(c))
         p = ['@proof fwd.' + f.impl[:-2], '@object-bits 10', '@enforce ' + f.impl]
@@ -537,7 +557,13 @@ def gen():
         p.append('@end')
         proofs.append('\n'.join(p))
     A('\n'.join(proofs))
-    A(CONV_SECTION % dict(buf=TYPE_BUF - 1, ens='\n'.join('  __CPROVER_ensures(%s)' % e for e in union_ensures()), n=TYPE_BUF))
+    shared = [f for f in fw if getattr(f, 'shared', None) is not None]
+    A('\n# ---- slots of MockSupport_c that hold a forwarder of MockActualCall_c (one C function, two tables): the contract above is the one\n'
+      '# derived from the MockActualCall_c name; for the MockSupport_c name (MockSupport::<same name>() of the current MockSupport) it says\n'
+      '# the same only under C19_COHERENT plus engine facts - undecided here, refuted in general (C19.undecided.txt, C19_receiver.spec):\n'
+      + '\n'.join('#   MockSupport_c.%-42s %s' % (f.field, f.impl) for f in shared) +
+      '\n#   MockActualCall_c.%-40s %s   (asks the MockSupport; contract stated for MockSupport_c.hasReturnValue)' % ('hasReturnValue', 'hasReturnValue_c'))
+    A(CONV_SECTION % dict(buf=TYPE_BUF - 1, ens='\n'.join(l for e in union_ensures() for l in ens_lines(e)), n=TYPE_BUF))
     A(EXTRA_SECTION)
     A(tables_section(table_rows))
     open(os.path.join(VERIFDIR, 'contracts', 'C19.spec'), 'w').write('\n'.join(out) + '\n')
@@ -602,7 +628,66 @@ def tables_section(rows):
     return '\n'.join(o)
 
 def receiver_spec(out):
-    return ''
+    return RECEIVER
+
+RECEIVER = r"""# C19_receiver: the three by-name expectations that the shared forwarders of MockSupport_c.cpp do NOT meet.  GENERATED by
+# tools/gen_C19.py.  Imported into `./check C19`; every proof here FAILS on the current tree and is matched against the open entry of
+# known_findings.json (KNOWN-FINDING line, exit 0); any other failing obligation is a VIOLATION.  They document one finding, see contracts/C19.undecided.txt and replay/C19_forwarders.cpp (receiver):
+#
+#   hasReturnValue_c, <t>ReturnValue_c and return<T>ValueOrDefault_c each sit in BOTH tables (MockActualCall_c and MockSupport_c), but
+#   each consults one fixed object: hasReturnValue_c always asks the MockSupport selected LAST by mock_c()/mock_scope_c(), the typed
+#   getters always ask the static "current actual call" (the LAST actual call made through the C interface, in whatever scope).
+#   By their names the MockActualCall_c slots must ask the actual call (MockActualCall::hasReturnValue, ...OrDefault) and the
+#   MockSupport_c slots must ask the MockSupport (MockSupport::intReturnValue(), ...).  The two coincide only while the current
+#   actual call is the last actual call of the current MockSupport (C19_COHERENT in C19.spec).
+@tu src/CppUTestExt/MockSupport_c.cpp
+@use C19.spec
+
+@proof receiver.MockActualCall_c.hasReturnValue
+@object-bits 10
+@body hasReturnValue_c
+@replay C19_forwarders receiver
+@harness
+void verif_harness(void)
+{
+  __CPROVER_assume(C19_START);
+  int r = hasReturnValue_c();
+  __CPROVER_assert(g_has_on == 2, "MockActualCall_c.hasReturnValue asks the current actual call (MockActualCall::hasReturnValue)");
+  __CPROVER_assert(r == ((g_act_has != 0) ? 1 : 0), "... and answers what the actual call answers");
+  VERIF_CANARY
+}
+@end
+
+@proof receiver.MockActualCall_c.returnIntValueOrDefault
+@object-bits 10
+@body returnIntValueOrDefault_c hasReturnValue_c intReturnValue_c
+@replay C19_forwarders receiver
+@harness
+void verif_harness(void)
+{
+  int defaultValue;
+  __CPROVER_assume(C19_START);           /* no coherence assumed */
+  int r = returnIntValueOrDefault_c(defaultValue);
+  __CPROVER_assert((g_act_has == 0) ==> (r == defaultValue && g_calls == 0), "the default exactly when the ACTUAL CALL has no return value");
+  __CPROVER_assert((g_act_has != 0) ==> (r == g_ret_int && g_calls == 1), "the typed getter of the actual call otherwise");
+  VERIF_CANARY
+}
+@end
+
+@proof receiver.MockSupport_c.intReturnValue
+@object-bits 10
+@body intReturnValue_c
+@replay C19_forwarders receiver
+@harness
+void verif_harness(void)
+{
+  __CPROVER_assume(C19_START);
+  int r = intReturnValue_c();
+  __CPROVER_assert(g_method != M_MockActualCall_returnIntValue, "MockSupport_c.intReturnValue reaches MockSupport::intReturnValue() of the current MockSupport, not the static actual call");
+  VERIF_CANARY
+}
+@end
+"""
 
 HEAD = '''# C19 (partial claim): forwarder wiring of the C mocking interface.   GENERATED by tools/gen_C19.py - edit the generator.
 #
